@@ -20,6 +20,9 @@ type Param struct {
 	Required bool    `json:"required,omitempty"`
 	Schema   *Schema `json:"schema,omitempty"`
 	Content  string  `json:"content,omitempty"` // e.g. application/json: use content instead of schema
+	// AtPathItem: declared in the path item's parameter list instead of the operation's (only used
+	// when the operation is the only one of its path).
+	AtPathItem bool `json:"at_path_item,omitempty"`
 
 	Description string `json:"description,omitempty"`
 	Deprecated  bool   `json:"deprecated,omitempty"`
@@ -92,6 +95,7 @@ func (d Doc) RenderMap() map[string]any {
 		if op.Deprecated {
 			o["deprecated"] = true
 		}
+		var itemParams []any
 		if len(op.Params) > 0 {
 			var ps []any
 			for _, p := range op.Params {
@@ -116,9 +120,15 @@ func (d Doc) RenderMap() map[string]any {
 				} else {
 					pm["schema"] = p.Schema.Render()
 				}
-				ps = append(ps, pm)
+				if p.AtPathItem {
+					itemParams = append(itemParams, pm)
+				} else {
+					ps = append(ps, pm)
+				}
 			}
-			o["parameters"] = ps
+			if len(ps) > 0 {
+				o["parameters"] = ps
+			}
 		}
 		if op.Body != nil {
 			b := map[string]any{"content": mediaMap(op.Body.Media)}
@@ -153,6 +163,10 @@ func (d Doc) RenderMap() map[string]any {
 			paths[op.Path] = item
 		}
 		item[strings.ToLower(op.Method)] = o
+		if len(itemParams) > 0 {
+			prev, _ := item["parameters"].([]any)
+			item["parameters"] = append(prev, itemParams...)
+		}
 	}
 	doc := map[string]any{
 		"openapi": v,
